@@ -74,6 +74,53 @@ def run_unit(A, unit, rep, tier):
     if kind == "capacity":
         return check_capacity(A, rep)
     c07.check_context(A, _Rename(rep))
+    check_capacity_tests(A, rep)
+
+
+def check_capacity_tests(A, rep):
+    """(g) 0 is a capacity: a test that decides whether a temporary capacity is installed or the saved one restored
+    must separate None ("no capacity given") from every number; a truthiness test treats buffer_backend(0) like
+    buffer_backend() (data stays buffered above the requested bound) and never restores a saved capacity of 0."""
+    import ast
+    from ..graph import Val as _V
+    done = set()
+    n_tests = 0
+    for cls in A.concrete():
+        if not cls.is_subclass_of("FileBufferedCollection"):
+            continue
+        b, g = A.ctx_exit_graph(cls, "backend", 0, 0, method="__enter__")
+        cmcls = next((n["recv"].args[0] for n in live(g) if n.kind == "enter" and n["fname"] == "__enter__" and n["recv"] is not None and n["recv"].kind == "obj"), None)
+        if cmcls is None:
+            raise AnalysisError(f"anchor: backend-wide buffering context of {cls.name} not found")
+        chain = [cmcls] + [c for c in A.model.classes.values() if cmcls.is_subclass_of(c.name) and c is not cmcls]
+        for c in chain:
+            if c.qualname in done:
+                continue
+            done.add(c.qualname)
+            for st in c.node.body:
+                if not (isinstance(st, ast.FunctionDef) and st.name in ("__enter__", "__exit__", "__call__")):
+                    continue
+                for n in ast.walk(st):
+                    if isinstance(n, (ast.If, ast.IfExp)):
+                        arms = (n.body if isinstance(n.body, list) else [n.body]) + (n.orelse if isinstance(n.orelse, list) else [n.orelse])
+                        guards = any(isinstance(x, ast.Call) and isinstance(x.func, ast.Attribute) and x.func.attr == "set_buffer_capacity" for a in arms for x in ast.walk(a))
+                        if not guards:
+                            continue
+                        n_tests += 1
+                        t = n.test
+                        while isinstance(t, ast.UnaryOp) and isinstance(t.op, ast.Not):
+                            t = t.operand
+                        where = f"{c.name}.{st.name}"
+                        if isinstance(t, ast.Compare) and len(t.ops) == 1 and isinstance(t.ops[0], (ast.Is, ast.IsNot, ast.Eq, ast.NotEq)) \
+                                and any(isinstance(x, ast.Constant) and x.value is None for x in (t.left, t.comparators[0])):
+                            rep.ok("C15.g", f"C15.g {where}: `{ast.unparse(n.test)}` separates 'no capacity' (None) from every number")
+                        elif isinstance(t, (ast.Name, ast.Attribute, ast.Call, ast.Subscript, ast.NamedExpr)):
+                            rep.fail("C15.g", norm_key("C15.g", where, "truthiness"),
+                                     f"{where}: `{ast.unparse(n.test)}` decides by truthiness whether a capacity is installed / restored; a capacity of 0 is treated like 'none given': buffer_backend(0) keeps data "
+                                     "buffered above the requested bound and a saved capacity of 0 is never restored", [f"{c.module.path}:{n.lineno}: if {ast.unparse(n.test)}"], where)
+                        else:
+                            rep.ok("C15.g", f"C15.g {where}: `{ast.unparse(n.test)}` - form not recognised, not decided")
+    rep.floor("capacity install/restore tests", n_tests, 2)
 
 
 class _Rename:
